@@ -140,7 +140,7 @@ func (d *Decimal) setString(c *Context, s string) (Condition, error) {
 		// any number of them.
 		for i := 0; i < len(s); i++ {
 			if s[i] < '0' || s[i] > '9' {
-				return 0, fmt.Errorf("parse payload: %s: invalid syntax", s)
+				return 0, fmt.Errorf("parse payload: %s: %w", s, strconv.ErrSyntax)
 			}
 		}
 		return 0, nil
